@@ -179,7 +179,9 @@ def reconnect_suite(ctx, vh):
             return
         for i, r in zip(redo, again):
             rows[i] = r
-    judged = [r for r in rows if not rc_env_trouble(r)]
+    # a wait of the rig that expires again and again (3 runs, the last two alone) is not the environment: the manager
+    # did not do what the script needs (e.g. it never dialled again), so the run is judged like any other
+    judged = [r for r in rows if not rc_env_trouble(r) or r["timeout"]]
     ctx.indeterminate += len(rows) - len(judged)
     terms = [rc_term(r) for r in judged]
     bad_oracle, bad_agree = eval_both(ctx, "rc", RC_HDR, terms, shard=max(20, (len(terms) + 7) // 8))
@@ -194,7 +196,7 @@ def reconnect_suite(ctx, vh):
         again = ctx.vh_jsonl(vh, "reconnect", ["-replay", path], timeout=900)
         if again is None:
             return
-        keep = [k for k, r in enumerate(again) if not rc_env_trouble(r)]
+        keep = [k for k, r in enumerate(again) if not rc_env_trouble(r) or r["timeout"]]
         t2 = [rc_term(again[k]) for k in keep]
         bo2, ba2 = eval_both(ctx, "rc_again", RC_HDR, t2, shard=50)
         bd2 = [j for j, k in enumerate(keep) if not rc_delivery_ok(again[k])]
@@ -287,6 +289,15 @@ def offline_suite(ctx, vh):
                       "e.g. %s at %s)" % (len(disturbed), len(rows), off_show(disturbed[0]), disturbed[0]["timeout"]),
                       {"kind": "correspondence-broken", "suite": "offline/live", "theorems": ["C15_offline_exactly_once_in_order"],
                        "case": {"ops": off_show(disturbed[0]), "stopped_at": disturbed[0]["timeout"]}}, no_input=True)
+    # a history that stops early again at the same operation when run alone is not the environment
+    for r in disturbed[:6]:
+        one = ctx.vh_jsonl(vh, "offline", ["-replay", json.dumps(r["ops"]), "-n", 0, "-seed", 1], timeout=300)
+        if one and one[0]["timeout"] == r["timeout"]:
+            ctx.violation("offline buffer: history %s: the effect of %s never shows up (twice in a row, the second time run alone): "
+                          "a CONNECT request, a connect / close callback, a parked event or a flushed frame is missing"
+                          % (off_show(r), r["timeout"]),
+                          {"kind": "failing-input", "engine": "offline", "case": {"ops": r["ops"], "wire": one[0]["wire"],
+                                                                                 "calls": one[0]["calls"], "stopped_at": r["timeout"]}})
     # a history that stopped early is judged on the part that completed
     terms = [off_term(r, None if not r["timeout"] else max(0, len(r["wire"]) - 1)) for r in rows]
     bad_oracle, bad_agree = eval_both(ctx, "off", OFF_HDR, terms, shard=max(20, (len(terms) + 7) // 8))
